@@ -1235,12 +1235,12 @@ pub fn run(args: &Args, report: &Report) {
         return;
     }
     let p = params(args.is_thorough());
-    let shards = 16usize;
+    let shards: usize = args.extra.get("shards").and_then(|s| s.parse().ok()).unwrap_or(16);
     let per_shard: u64 = args
         .extra
         .get("per-shard")
         .and_then(|s| s.parse().ok())
-        .unwrap_or(args.by_tier(3, 12));
+        .unwrap_or(args.by_tier(3, 8));
     let args2 = args.clone();
     let report2 = report.clone();
     run_shards(report, args, shards, move |shard, shard_seed| {
@@ -1255,7 +1255,7 @@ pub fn run(args: &Args, report: &Report) {
 fn finish(args: &Args, report: &Report, selftest: u32, replay: bool) {
     if !replay {
         let t = |q: u64, th: u64| args.by_tier(q, th);
-        report.require("histories", t(24, 150));
+        report.require("histories", t(24, 100));
         report.require("commits.list_with_overlapping_columns", t(300, 1500));
         report.require("queries.prefix.reverse.nonempty", t(80_000, 400_000));
         report.require("queries.prefix.forward.nonempty", t(80_000, 400_000));
@@ -1266,7 +1266,7 @@ fn finish(args: &Args, report: &Report, selftest: u32, replay: bool) {
         report.require("queries.reverse_prefix.nonempty.prefix_ends_with_ff", t(2_000, 10_000));
         report.require("queries.reverse_prefix.nonempty.successor_key_present", t(1_000, 5_000));
         report.require("queries.on_prefix_extractor_column", t(50_000, 250_000));
-        report.require("reopen_rounds", t(24, 250));
+        report.require("reopen_rounds", t(24, 200));
         report.require("snapshot_view.column_checks", t(2_000, 10_000));
         report.require("point_reads", t(300_000, 1_500_000));
     }
